@@ -17,4 +17,12 @@ unsigned g_n;
 #define F_GOK 1
 #define F_HASREV 1
 #include "scalar/split_family.h"
+
+static inline uint8_t sp_len_(uint64_t v) { uint8_t n; varintSplitLength_(n, v); return n; }
+W_REL0(w_splitConstants, {
+    return VARINT_SPLIT_MAX_6 == 63 && VARINT_SPLIT_MAX_14 == 16446 && sp_len_(VARINT_SPLIT_MAX_6) == 1 && sp_len_(VARINT_SPLIT_MAX_6 + 1) == 2 &&
+           sp_len_(VARINT_SPLIT_MAX_14) == 2 && sp_len_(16701) == 2 && sp_len_(16702) == 3 && sp_len_(81981) == 3 && sp_len_(81982) == 4;
+})
+H_REL0(H_splitConstants, w_splitConstants)
+
 RP_MAIN()
